@@ -899,7 +899,13 @@ rt_prop("C07", ["task", "cancel", "comb"],
         "every channel is closed, every task still stored is suspended only at requests it has already seen closed, at join "
         "handles or hosted commands — exactly what run_task evicts WHEN it polls it; the stranded task of the witness is one: "
         "kernel-evaluated example) and task_waiting_at_request_has_live_sender (a stored task that still waits at a request names "
-        "a channel the shell can still answer). Without handoff completeness is stated "
+        "a channel the shell can still answer). COMPLETENESS PROVED for tasks that wait only on shell requests — "
+        "simple_command_done_when_all_requests_gone: for every SIMPLE task program (emit, notify, request, stream, spawn, join, "
+        "self-wake in any nesting; no select, no handed-off request future, no join / abort handles, no hosted commands) under "
+        "the direct host, after EVERY history that leaves the command settled and every channel closed, no task remains "
+        "(invariants GInv + LQ + SPc + ND, Lemmas/Simple, NoReg, Complete: the poll that leaves a simple task suspended only at "
+        "closed requests registers its waker nowhere — NRGood, one grind call — so run_task evicts it unless that poll woke it: "
+        "dead_simple_task_is_evicted_or_queued). For the rest of the handoff-free fragment (select, join handles) completeness is stated "
         "(evict_complete_handoff_free_goal; no counterexample in the `complete` stream) and not proved. It is also FALSE on the "
         "real code outside the modelled fragment: a task that retains a clone of its own waker (FuturesUnordered / "
         "flatten_unordered behind StreamBuilder::then_stream on a stream) and then waits on a dropped one-shot request is never evicted "
